@@ -34,12 +34,14 @@ META = {
 def plan(tier, seed):
     if tier == "quick":
         specs = [{"kind": "exh", "i": i, "n": 8, "max_obj": 3, "max_sp": 2, "nfam": 2, "ncost": 8} for i in range(8)]
-        specs += [{"kind": "rand", "i": i, "count": 60, "max_obj": 5, "max_sp": 4, "max_fam": 4} for i in range(8)]
-        specs += [{"kind": "deep", "i": i, "count": 110} for i in range(8)]
+        specs += [{"kind": "rand", "i": i, "count": 80, "max_obj": 5, "max_sp": 4, "max_fam": 4} for i in range(16)]
+        specs += [{"kind": "deep", "i": i, "count": 150} for i in range(16)]
+        specs += [{"kind": "rand", "i": 100 + i, "count": 40, "max_obj": 4, "min_obj": 3, "max_sp": 8, "min_sp": 6, "max_fam": 3} for i in range(8)]
         return specs
     specs = [{"kind": "exh", "i": i, "n": 32, "max_obj": 4, "max_sp": 3, "nfam": 2, "ncost": 6} for i in range(32)]
     specs += [{"kind": "rand", "i": i, "count": 350, "max_obj": 7, "max_sp": 4, "max_fam": 5, "min_obj": 3} for i in range(32)]
     specs += [{"kind": "deep", "i": i, "count": 1500} for i in range(32)]
+    specs += [{"kind": "rand", "i": 100 + i, "count": 300, "max_obj": 4, "min_obj": 3, "max_sp": 9, "min_sp": 6, "max_fam": 3} for i in range(16)]
     return specs
 
 
